@@ -133,6 +133,24 @@ def generate(seed, tier="quick"):
             val = ["list", [val]]
         f["sites"]["sk"] = {"op": krng.choice(["eq", "eq", "in"]), "place": "direct", "arg": None, "prev": None}
         f["tests"].append({"name": "test_setkeys", "events": [{"t": "cmp", "eid": "esk", "site": "sk", "vals": [val], "style": "rec"}]})
+    brng = sub(seed, "subclass")
+    if brng.random() < 0.25:
+        # instances of subclasses of set / frozenset (no __repr__ of their own), bare and inside other containers
+        f = prog["files"][0]
+        strs = lambda: V._uniq([["str", brng.choice("abcdefgh") * brng.randint(1, 3)] for _ in range(brng.randint(2, 5))])
+        val = brng.choice([["subc", ["set", strs()], "Tags"], ["subc", ["frozenset", strs()], "FTags"]])
+        r = brng.random()
+        if r < 0.25:
+            val = ["list", [val, ["int", 1]]]
+        elif r < 0.4:
+            val = ["dict", [[["str", "tags"], val]]]
+        elif r < 0.5:
+            val = ["tuple", [["int", 0], val]]
+        f["sites"]["sb"] = {"op": brng.choice(["eq", "eq", "in", "item"]), "place": "direct", "arg": None, "prev": None}
+        e = {"t": "cmp", "eid": "esb", "site": "sb", "vals": [val], "style": "rec"}
+        if f["sites"]["sb"]["op"] == "item":
+            e["key"], e["cop"] = ["str", "k"], "eq"
+        f["tests"].append({"name": "test_subclass", "events": [e]})
     driver = "plugin" if sub(seed, "driver").random() < 0.12 else "inline"
     irng = sub(seed, "imports")
     if driver == "plugin" and irng.random() < 0.7:
